@@ -9,7 +9,7 @@ from typing import IO, Union
 from wpull.network.connection import Connection
 from wpull.protocol.abstract.stream import close_stream_on_error, \
     DataEventDispatcher
-from wpull.errors import NetworkError
+from wpull.errors import NetworkError, ProtocolError
 from wpull.protocol.ftp.request import Reply, Command
 
 
@@ -128,7 +128,11 @@ class ControlStream(object):
         reply = Reply()
 
         while True:
-            line = yield from self._connection.readline()
+            try:
+                line = yield from self._connection.readline()
+            except ValueError as error:
+                raise ProtocolError(
+                    'Invalid reply: {0}'.format(error)) from error
 
             if line[-1:] != b'\n':
                 raise NetworkError('Connection closed.')
